@@ -10,6 +10,7 @@ deserialization succeeds, serialize(deserialize(s)) == s as a bare string,
 to distinct variants.
 """
 import vp_common as vc
+import json
 import krun
 
 PROP = 'C10'
@@ -20,6 +21,36 @@ def build(c):
     c.add_enum_harnesses(PROP, lambda e: [v for v in e['variants'] if v in ('base', 'rust')])
 
 
+def enum_part(out):
+    """engine M: the per-enum closure of generate_enum_definitions with unconstrained value names (the program axis the
+    K-gen catalogue only samples): the wire literals of the generated impls are the schema's value names, under every
+    normalization.  Counterexamples are replayed through the real generator (the literals are read from its output)."""
+    import re
+    import mcheck
+    import native
+    import kernels as K
+    sc = vc.scratch(PROP + 'm')
+    R = mcheck.MRun(vc.REPO, sc, 'codegen', max_depth=80)
+    cands = []
+    for nv in ((1, 2) if vc.tier() == 'quick' else (1, 2, 3)):
+        cands += [c for c in K.k_enum_definition(R, nv) if c['prop'] == PROP]
+    import abstract_common as AC
+    rt = native.ReplayTool(sc)
+    replayed = 0
+    for c in cands[:1]:
+        ok, desc, rp = AC.confirm_enum_literals(rt, c['model'])
+        replayed += 1
+        if ok is False:
+            out.violation('enum-literals:' + str(c['model'].get('normalization')).lower(), desc, rp)
+        else:
+            out.inconc(f"enum literal counterexample {c['model']} did not reproduce natively")
+    for w in R.inconclusive:
+        out.inconc(w)
+    ev = R.evidence()
+    ev.update(paths=R.paths, obligations=R.obligations, discharged=R.discharged, replayed=replayed, samples=R.samples[:3])
+    return ev
+
+
 def main():
     return krun.standard_check(
         PROP, build, ok_real=lambda v: v == 'Ok',
@@ -28,4 +59,14 @@ def main():
         assumptions=['SV / CheckSer harness models mirror serde_json::Value (validated natively on every run)',
                      'strings: schema values with <= 1 byte edit, and free ASCII strings up to 3 (quick) / 5 (thorough) bytes; longer and non-ASCII strings are outside the bound',
                      'enum definitions: the catalogue under kgen/catalogue (program axis is a catalogue, not a quantifier)'],
-        jobs=6)
+        jobs=6, pre=enum_part)
+
+
+def replay(path):
+    def other(p):
+        import native
+        import abstract_common as AC
+        ok, desc, _ = AC.confirm_enum_literals(native.ReplayTool(vc.scratch(PROP + 'r')), p['model'])
+        print(desc)
+        return 1 if ok is False else 0
+    return krun.replay_generic(PROP, build, lambda v: v == 'Ok', path, other=other)
